@@ -98,7 +98,7 @@ class Case:
             l.append("validator " + self.validator)
         if self.printer:
             l.append("printer 1")
-        for k in ("highlight", "signals", "paste", "helper_panic_at", "auto_add", "printers", "printers_late", "linger", "max_hist"):
+        for k in ("highlight", "signals", "paste", "helper_panic_at", "auto_add", "printers", "printers_late", "linger", "stdout_full", "max_hist"):
             if k in self.meta:
                 l.append("%s %s" % (k, self.meta[k]))
         for ks, cmd in self.binds:
@@ -396,6 +396,9 @@ def gen_vi_ops(rng, text=None):
     for _ in range(rng.randint(1, 5)):
         c1 = [rng.choice("234")] if rng.random() < 0.6 else []
         c2 = [rng.choice("234")] if rng.random() < 0.6 else []
+        if rng.random() < 0.08:
+            # counts whose product is beyond the 16-bit repeat count (it saturates)
+            c1, c2 = list(rng.choice(["256", "300", "999"])), list(rng.choice(["256", "300", "999"]))
         op = rng.choice(["d", "d", "c", "y", "<", ">"])
         mot = rng.choice(["w", "w", "e", "b", "l", "h", "W", "E", "B", " ", "j", "k", op])
         ks += c1 + [op] + c2
@@ -550,12 +553,19 @@ def c13_cases(tier, seed):
             elif r < 0.55:
                 keys += list(rng.choice(frag))
             elif r < 0.75:
-                keys.append(rng.choice(["Enter", "C-j", "C-m", "Enter"]))
+                if mode == "vi" and rng.random() < 0.4:
+                    keys.append("Esc")          # Enter pressed in vi COMMAND mode asks the validator like any other Enter
+                    keys.append(rng.choice(["Enter", "C-j", "C-m", "Enter"]))
+                    keys.append(rng.choice(["a", "i", "A"]))
+                else:
+                    keys.append(rng.choice(["Enter", "C-j", "C-m", "Enter"]))
             elif r < 0.9:
                 keys.append(rng.choice(["Left", "Home", "Backspace", "C-a", "End", "Right", "Up"] if mode == "emacs"
                                        else ["Left", "Home", "Backspace", "End", "Right"]))
             else:
                 keys.append(rng.choice(["C-_", "C-k", "C-u"]) if mode == "emacs" else "Backspace")
+        if mode == "vi" and rng.random() < 0.3:
+            keys.append("Esc")
         keys.append("Enter")
         reads = rng.choice([1, 1, 2])
         if reads == 2:
